@@ -9,13 +9,37 @@ class Timeout(BaseException):
     pass
 
 
+_ALARM_ACTIVE = False
+RUN_LIMIT_S = 10.0
+_TIMEOUTS = 0
+
+
+def _limit():
+    """The limit shrinks once the code under test has shown that it does not terminate: the violation is established
+    after the first time-outs, the remaining cases must not cost 10 s each."""
+    if _TIMEOUTS >= 20:
+        return 0.2
+    if _TIMEOUTS >= 3:
+        return 1.0
+    return RUN_LIMIT_S
+
+
+class DidNotTerminate(Exception):
+    """The real code did not return within the limit (reported as an outcome, so that a change that makes the code
+    loop forever fails the check instead of hanging it)."""
+
+
 def with_alarm(seconds, thunk, default=None):
     """Run thunk under a wall-clock alarm (huge integer powers etc. are skipped, not judged)."""
     import signal
+    global _ALARM_ACTIVE
 
     def h(sig, frm):
         raise Timeout()
+    if _ALARM_ACTIVE:           # already guarded by an enclosing alarm (timers do not nest)
+        return thunk()
     old = signal.signal(signal.SIGALRM, h)
+    _ALARM_ACTIVE = True
     signal.setitimer(signal.ITIMER_REAL, seconds)
     try:
         return thunk()
@@ -24,17 +48,31 @@ def with_alarm(seconds, thunk, default=None):
     finally:
         signal.setitimer(signal.ITIMER_REAL, 0)
         signal.signal(signal.SIGALRM, old)
+        _ALARM_ACTIVE = False
 
 
 def run(thunk):
-    try:
-        with warnings.catch_warnings():
-            warnings.simplefilter("ignore")
-            return ("val", thunk())
-    except RecursionError:
-        raise
-    except Exception as e:  # noqa: BLE001
-        return ("exc", type(e), e.args)
+    """Outcome of running real code: ('val', v) or ('exc', class, args); never hangs (DidNotTerminate after RUN_LIMIT_S)."""
+    import threading
+
+    def go():
+        try:
+            with warnings.catch_warnings():
+                warnings.simplefilter("ignore")
+                return ("val", thunk())
+        except RecursionError:
+            raise
+        except Exception as e:  # noqa: BLE001
+            return ("exc", type(e), e.args)
+    global _TIMEOUTS
+    if _ALARM_ACTIVE or threading.current_thread() is not threading.main_thread():
+        return go()
+    lim = _limit()
+    r = with_alarm(lim, go, default=None)
+    if r is None:
+        _TIMEOUTS += 1
+        return ("exc", DidNotTerminate, (f"no result within {lim} s",))
+    return r
 
 
 def same_value(a, b, typed=True):
